@@ -9,7 +9,7 @@ PROPS = "Convert/Props_C14.v"
 COQ_FILES = ["Convert/Bytes.v", "Convert/Generated_PurlTypes.v", "Convert/Purl.v", "Convert/Pkg.v", "Convert/Index.v",
              "Convert/Proto.v", "Convert/Sbom.v", "Convert/Cases14.v", "Convert/BytesProofs.v", "Convert/Proofs.v",
              "Convert/Props_C14.v"]
-THEOREMS = ["emitted_types_valid_on_D", "emitted_types_valid_refuted", "valid_type_case_insensitive",
+THEOREMS = ["emitted_types_valid", "valid_type_case_insensitive",
             "norm_idempotent", "purl_roundtrip_idempotent", "purl_roundtrip_accepts", "purl_roundtrip_rejects_invalid_type",
             "index_returns_package", "index_get_specific_exact", "index_get_all_of_type_exact",
             "proto_preserves", "proto_preserves_inventory", "spdx_preserves_on_D", "spdx_exact_skips",
@@ -24,7 +24,7 @@ META = {
                  "+ go/ast translator regenerating the purl type tables + vm_compute correspondence on packages harvested "
                  "from every offline built-in extractor over the repository fixtures",
     "level_text": "Proved (Convert/Props_C14.v): every purl type referenced by built-in extractor sources is accepted by "
-                  "purl.validType except exactly `snap` (emitted_types_valid_on_D / _refuted, tables regenerated from the Go "
+                  "purl.validType (emitted_types_valid, full strength, tables regenerated from the Go "
                   "source on every run); print-then-parse is idempotent and accepted for valid types given the stated law of "
                   "packageurl-go (purl_roundtrip_idempotent, norm_idempotent proved for the concrete normal form); the package "
                   "index returns exactly the packages with that purl type and name, for all inventories "
@@ -38,8 +38,9 @@ META = {
                   "data); harness harness/cmd/convert (projection of UUIDs/time stamps, position numbering of pointers); "
                   "packageurl-go ToString/FromString enter the theorems only through the hypothesis "
                   "`pparse (pstring p) = norm p`, which is validated against the real library on every harvested and "
-                  "generated purl. Known findings: snap missing from validType; SPDX record mentions two locations; SBOM "
-                  "records carry no layer details.",
+                  "generated purl. Known findings: SPDX record mentions two locations; SBOM records carry no layer details; "
+                  "dotnet/pe and chrome/extensions emit no locations; renvlock version-less cran purl; sbom/spdx clears the name "
+                  "on a rejected purl. Fixed (regression witnesses): snap in validType, cargotoml empty package.",
     "design_ref": "DESIGN.md section 5 C14",
 }
 
@@ -85,6 +86,18 @@ def shard_and_run(ctx, vfile, prefix, per, tail_defs):
         return list(ex.map(one, range(len(chunks))))
 
 
+def retranslate_guard(ctx, cases_vo):
+    """Another process (e.g. bin/seedtest's exit trap: git checkout of Generated_*.v) may have replaced the generated
+    table since this run translated it: translate again right before the evaluation and rebuild when it differs."""
+    types, _ = translate(ctx)
+    if types is not None and types["generated_file_changed"]:
+        ctx.notes.append("Generated_PurlTypes.v was modified by another process during this run; regenerated and rebuilt")
+        ctx.log("generated table was changed under us: regenerated, rebuilding " + cases_vo)
+        rc, mout = ctx.coq_make([cases_vo])
+        if rc != 0:
+            raise RuntimeError("rebuild after re-translation failed: " + mout[-1500:])
+
+
 def tail14(name):
     return ("Definition corr_bad := Eval vm_compute in bad_indices case_model_ok %s.\nPrint corr_bad.\n"
             "Definition corr_mask := Eval vm_compute in bad_masks model_flags %s.\nPrint corr_mask.\n"
@@ -107,6 +120,15 @@ def replay_witness(ctx, binp, entry):
         return json.loads(out.strip().splitlines()[-1])
     except Exception:
         return {"still_fails": None, "error": out[-800:]}
+
+
+def fixed_findings(ctx):
+    import glob
+    out = []
+    for f in sorted(glob.glob(os.path.join(vlib.VERIF, "KNOWN_FINDINGS.d", "*.json"))):
+        k = json.load(open(f))
+        out += [e for e in (k if isinstance(k, list) else k.get("findings", [])) if e.get("property") == ctx.pid and e.get("status") == "fixed"]
+    return out
 
 
 def run(ctx):
@@ -147,6 +169,15 @@ def run(ctx):
         ctx.violation({"kind": "harness-build-failed", "log": out[-3000:], "theorems_no_longer_tied_to_code": THEOREMS}, nofail=True)
         return
 
+    # ---- regression corpus: witnesses of FIXED findings run first and must hold at full strength
+    for e in fixed_findings(ctx):
+        res = replay_witness(ctx, binp, e)
+        if res.get("still_fails") is False:
+            ctx.coverage.setdefault("regression_witnesses_passed", []).append(e["id"])
+        else:
+            ctx.violation({"kind": "spec-failure", "clause": "regression: fixed finding %s is back" % e["id"], "fix_commit": e.get("fix_commit"),
+                           "witness": e["witness"], "result": res,
+                           "explanation": "the witness of a defect recorded as fixed fails again on the implementation"})
     # ---- known findings: replay each witness on the implementation
     known = ctx.known_findings()
     invalid_emitted_model = None
@@ -184,9 +215,9 @@ def run(ctx):
     os.makedirs(d, exist_ok=True)
     vfile, side, summ = (os.path.join(d, "C14_cases" + x) for x in (".v", ".jsonl", "_summary.json"))
     if ctx.tier == "thorough":
-        args = ["-cross", "-pergroup", "60", "-mutants", "800", "-synth", "600", "-maxpkgs", "8000"]
+        args = ["-cross", "-pergroup", "60", "-mutants", "800", "-synth", "600", "-maxpkgs", "8000", "-sbomdocs", "800"]
     else:
-        args = ["-pergroup", "16", "-mutants", "110", "-synth", "120", "-maxpkgs", "1200"]
+        args = ["-pergroup", "14", "-mutants", "100", "-synth", "100", "-maxpkgs", "1100", "-sbomdocs", "100"]
     rc, out = vlib.sh([binp, "-repo", vlib.REPO, "-out", vfile, "-jsonl", side, "-summary", summ, "-seed", str(ctx.seed),
                        "-types", os.path.join(vlib.BUILD, "purltypes.json")] + args, timeout=1500)
     if rc != 0:
@@ -194,6 +225,7 @@ def run(ctx):
     cases = [json.loads(l) for l in open(side)]
     summary = json.load(open(summ))
     ctx.log("harness: %d cases, %d packages, %d extractor panics" % (len(cases), summary["packages"], len(summary["panics"] or [])))
+    retranslate_guard(ctx, "theories/Convert/Cases14.vo")
     outs = shard_and_run(ctx, vfile, "C14", 10, tail14)
     corr_bad, spec_bad, corr_mask, spec_mask = [], [], [], []
     counts = [0, 0, 0]
@@ -208,7 +240,7 @@ def run(ctx):
         corr_mask += cm
         spec_mask += sm
         counts = [a + b for a, b in zip(counts, cn)]
-    ctx.log("corr_bad=%d spec_bad=%d (packages %d, outside D (known type) %d, >2 locations %d)" % (
+    ctx.log("corr_bad=%d spec_bad=%d (packages %d, known-unparseable (cran without version) %d, >2 locations %d)" % (
         len(corr_bad), len(spec_bad), counts[0], counts[1], counts[2]))
 
     def describe(c):
@@ -239,7 +271,7 @@ def run(ctx):
         "input_distribution": {k: summary[k] for k in ("streams", "purl_types", "locations_per_package", "packages_per_extractor",
                                                          "extractors", "testdata_dirs", "extract_calls", "extract_errors",
                                                          "fixture_groups", "mutants_tried", "mutants_parsed")},
-        "packages_outside_D_known_purl_type": counts[1],
+        "packages_known_unparseable_cran_without_version": counts[1],
         "packages_with_more_than_two_locations": counts[2],
         "purl_name_differs_from_package_name": summary["purl_name_differs_from_package_name"],
         "hypotheses_validated": {"codec_law (packageurl-go FromString . ToString = norm)": summary["packages"]},
